@@ -1,62 +1,219 @@
 import Sigc.Model
-import Sigc.Lemmas.Basic
-import Sigc.Lemmas.Frames
+import Sigc.Spec
+import Sigc.Lemmas.InvExamples
 /-!
 # C04 — a connection handle is always safe and tells the truth about its slot
-(first theorems; the all-history invariant "a connection never dangles" is being proved in Sigc/Lemmas/Inv*.lean)
+
+Model-level content (mechanism model `P`, `Sigc/Model.lean`): a connection is the `weak_raw_ptr`
+`Option cellId`.  Proved here, for every fuel, program and history:
+
+* `conn_never_dangles*` — in every reachable state (and at every operation boundary inside an emission)
+  every pointer held by a connection, a scoped connection or a functor-owned scoped connection is the id
+  of a cell that exists: every operation on the handle finds its target or `none`, never a destroyed cell.
+* `connected_iff*` — `connected()` is true exactly when the cell is in a list and valid.
+* `validity_monotone*`, `stays_false*` — once `connected()` is false for a handle value it is false for
+  ever, whatever runs afterwards (cell ids are never reused, `call_` never goes back to non-null).
+* `disconnect_idempotent`, `disconnect_exact`, `disc_twice` — `disconnect()` is idempotent and touches
+  exactly the one cell.
+All invariants are instances of the generic schema `Sigc.Inv.Stable` (`Sigc/Lemmas/InvSchema.lean`).
 -/
 namespace Sigc.C04
-open Sigc.Model
+open Sigc.Model Sigc.Inv
 
-/-- an empty (default-constructed or nulled) connection is not connected and not blocked -/
-theorem none_not_connected (s : St) : connConnected s none = false ∧ connBlocked s none = false := ⟨rfl, rfl⟩
+/-- **every terminating run of every program**: in the final state every connection, scoped connection
+    and functor-owned scoped connection is `none` or points at a cell that exists in some list -/
+theorem conn_never_dangles (fuel : Nat) (P : Prog) (s : St) (h : runTop fuel P {} P.top = some s) :
+    NoDangling s :=
+  noDangling_of_links (Links.reachable fuel P s h)
 
-/-- `connected()` is true exactly when the cell it was obtained for is still in a list and valid -/
+/-- the same after the harness teardown of any reachable state -/
+theorem conn_never_dangles_teardown (fuel fuel' : Nat) (P : Prog) (s s' : St)
+    (h : runTop fuel P {} P.top = some s) (ht : teardown fuel' P s = some s') : NoDangling s' :=
+  noDangling_of_links (Links.stable.teardown fuel' P s s' (Links.reachable fuel P s h) ht)
+
+/-- … and at every operation boundary, inside or outside an emission, at any nesting depth: the link
+    invariant is preserved by every operation (`execOp`), every emission (`emitImpl`) and every functor
+    invocation (`invokeFun`), whatever the slots do re-entrantly -/
+theorem conn_never_dangles_op (fuel : Nat) (P : Prog) (s : St) (op : Op) (r : St × Except Unit String)
+    (hs : Links s) (h : execOp fuel P s op = some r) : Links r.1 ∧ NoDangling r.1 :=
+  ⟨Links.stable.execOp hs h, noDangling_of_links (Links.stable.execOp hs h)⟩
+
+theorem conn_never_dangles_emit (fuel : Nat) (P : Prog) (s : St) (fl : Flavour) (impl : Option Nat) (arg : Nat)
+    (strat : Strat) (r : St × Outcome × Nat) (hs : Links s) (h : emitImpl fuel P s fl impl arg strat = some r) :
+    Links r.1 ∧ NoDangling r.1 :=
+  ⟨Links.stable.emitImpl hs h, noDangling_of_links (Links.stable.emitImpl hs h)⟩
+
+theorem conn_never_dangles_invoke (fuel : Nat) (P : Prog) (s : St) (fn : Fun) (arg : Nat) (r : St × Outcome × Nat)
+    (hs : Links s) (h : invokeFun fuel P s fn arg = some r) : Links r.1 ∧ NoDangling r.1 :=
+  ⟨Links.stable.invokeFun hs h, noDangling_of_links (Links.stable.invokeFun hs h)⟩
+
+/-- the hypothesis of the three previous theorems holds initially and in every reachable state -/
+theorem links_reachable (fuel : Nat) (P : Prog) (s : St) (h : runTop fuel P {} P.top = some s) : Links s :=
+  Links.reachable fuel P s h
+
+/-! ### `connected()` tells the truth -/
+
+/-- `connected()` of a handle value: true iff the lookup finds a cell and that cell is valid -/
 theorem connected_iff (s : St) (cid : Nat) :
     connConnected s (some cid) = true ↔ ∃ i c, getCell s cid = some (i, c) ∧ c.slot.empty = false := by
   unfold connConnected
-  cases h : getCell s cid with
-  | none => simp [h]
-  | some p =>
-    obtain ⟨i, c⟩ := p
-    simp only [h, Option.some.injEq, Prod.mk.injEq]
+  simp only []
+  split
+  · rename_i hg; simp [hg]
+  · rename_i i c hg
+    simp only [hg, Bool.not_eq_true', Option.some.injEq, Prod.mk.injEq]
     constructor
-    · intro hc
-      exact ⟨i, c, ⟨rfl, rfl⟩, by simpa using hc⟩
-    · rintro ⟨i', c', ⟨rfl, rfl⟩, hc⟩
-      simp [hc]
+    · intro h; exact ⟨i, c, ⟨rfl, rfl⟩, h⟩
+    · rintro ⟨_, _, ⟨rfl, rfl⟩, h⟩; exact h
 
-/-- when a cell is erased, every connection and scoped connection that pointed at it is nulled
-    (`~slot_rep` notifies the `weak_raw_ptr`s), the others keep their target -/
-theorem nullConns_spec (s : St) (cid k : Nat) :
-    (aget (nullConns s cid).C k = (aget s.C k).map (fun p => if p = some cid then none else p)) ∧
-    (aget (nullConns s cid).K k = (aget s.K k).map (fun p => if p = some cid then none else p)) := by
-  unfold nullConns
-  simp only
-  exact ⟨aget_amap _ _ _, aget_amap _ _ _⟩
+theorem connected_none (s : St) : connConnected s none = false := rfl
 
-theorem nullConns_no_pointer_left (s : St) (cid k : Nat) :
-    aget (nullConns s cid).C k ≠ some (some cid) ∧ aget (nullConns s cid).K k ≠ some (some cid) := by
-  obtain ⟨h1, h2⟩ := nullConns_spec s cid k
-  rw [h1, h2]
+/-- in a well-formed (hence: in every reachable) state: `connected()` iff the cell is still held by a
+    signal's list and its rep is valid (`rep_ && rep_->call_`) -/
+theorem connected_iff_cell {s : St} (hw : WF s) (cid : Nat) :
+    connConnected s (some cid) = true ↔
+      ∃ i im c, aget s.impls i = some im ∧ c ∈ im.cells ∧ c.id = cid ∧ c.slot.empty = false := by
+  rw [connected_iff]
   constructor
-  · cases aget s.C k with
-    | none => simp
-    | some p => by_cases hp : p = some cid <;> simp [hp]
-  · cases aget s.K k with
-    | none => simp
-    | some p => by_cases hp : p = some cid <;> simp [hp]
+  · rintro ⟨i, c, hg, he⟩
+    obtain ⟨im, hi, _, hc, hid⟩ := getCell_some hg
+    exact ⟨i, im, c, hi, hc, hid, he⟩
+  · rintro ⟨i, im, c, hi, hc, hid, he⟩
+    exact ⟨i, c, hid ▸ getCell_of_mem hw hi hc, he⟩
 
-/-- copying / assigning / destroying connection variables never touches a signal or a slot -/
-theorem conn_var_ops_frame (s s' : St) (r : String) (op : Op)
-    (hop : (∃ j i, op = .cpC j i) ∨ (∃ j i, op = .asgC j i) ∨ (∃ i, op = .delC i) ∨ (∃ i, op = .newC i))
-    (h : stepSimple s op = some (s', r)) :
-    s'.impls = s.impls ∧ s'.S = s.S ∧ s'.T = s.T ∧ s'.G = s.G ∧ s'.K = s.K := by
-  rcases hop with ⟨j, i, rfl⟩ | ⟨j, i, rfl⟩ | ⟨i, rfl⟩ | ⟨i, rfl⟩ <;>
-    simp only [stepSimple] at h <;>
-    (repeat' split at h) <;> simp [setConn] at h <;> obtain ⟨rfl, _⟩ := h <;> simp
+theorem connected_iff_cell_reachable (fuel : Nat) (P : Prog) (s : St) (h : runTop fuel P {} P.top = some s)
+    (cid : Nat) :
+    connConnected s (some cid) = true ↔
+      ∃ i im c, aget s.impls i = some im ∧ c ∈ im.cells ∧ c.id = cid ∧ c.slot.empty = false :=
+  connected_iff_cell (Links.reachable fuel P s h).1.1 cid
 
-example : connConnected { impls := [(1, { cells := [{ id := 2, slot := { rep := some { call := true, fn := some (.leaf 0 []) } }, linked := true }] })] } (some 2) = true := by
-  decide
+/-! ### once false, false for ever -/
+
+/-- no function of the model ever makes an allocated cell id valid again: `Dead cid` (= the id is
+    allocated and no cell with this id is valid) is preserved by every operation, emission and functor
+    invocation, for every fuel and program -/
+theorem validity_monotone (cid : Nat) (fuel : Nat) (P : Prog) (s : St) (op : Op) (r : St × Except Unit String)
+    (hd : Dead cid s) (h : execOp fuel P s op = some r) : Dead cid r.1 :=
+  (Dead.stable cid).execOp hd h
+
+theorem validity_monotone_emit (cid : Nat) (fuel : Nat) (P : Prog) (s : St) (fl : Flavour) (impl : Option Nat)
+    (arg : Nat) (strat : Strat) (r : St × Outcome × Nat)
+    (hd : Dead cid s) (h : emitImpl fuel P s fl impl arg strat = some r) : Dead cid r.1 :=
+  (Dead.stable cid).emitImpl hd h
+
+/-- `connected()` false now ⇒ false after any operation (well-formed state, allocated id) -/
+theorem stays_false_op (fuel : Nat) (P : Prog) (s : St) (op : Op) (r : St × Except Unit String) (cid : Nat)
+    (hw : WF s) (hlt : cid < s.next) (hf : connConnected s (some cid) = false)
+    (h : execOp fuel P s op = some r) : connConnected r.1 (some cid) = false := by
+  have hd : Dead cid s := (dead_iff_not_connected hw hlt).2 hf
+  have hd' := (Dead.stable cid).execOp hd h
+  exact (dead_iff_not_connected (WF.stable.execOp hw h) hd'.1).1 hd'
+
+/-- **for ever**: take any reachable state `s`, any connection or scoped connection of `s` whose value `p`
+    reports `connected() = false` (the slot was disconnected through another copy, a trackable died,
+    `clear()`, the signal was destroyed, …); then after *any* continuation of the run the value `p`
+    (hence every copy of the handle that was not assigned a different value) still reports false -/
+theorem stays_false (fuel fuel' : Nat) (P : Prog) (s s' : St) (ls : List Line) (p : Option Nat)
+    (h : runTop fuel P {} P.top = some s)
+    (hp : (∃ k, aget s.C k = some p) ∨ (∃ k, aget s.K k = some p))
+    (hf : connConnected s p = false) (h' : runTop fuel' P s ls = some s') :
+    connConnected s' p = false := by
+  cases p with
+  | none => rfl
+  | some cid =>
+    have hl := Links.reachable fuel P s h
+    have hw := hl.1.1
+    have hin : CellIn s.impls cid := by
+      rcases hp with ⟨k, hk⟩ | ⟨k, hk⟩
+      · exact hl.2.1.get hk cid rfl
+      · exact hl.2.2.1.get hk cid rfl
+    obtain ⟨i, im, hi, c, hc, he⟩ := hin
+    have hlt : cid < s.next := he ▸ hw.idLt i im c hi hc
+    have hd : Dead cid s := (dead_iff_not_connected hw hlt).2 hf
+    have hd' := (Dead.stable cid).runTop_from fuel' P ls s s' hd h'
+    have hw' := WF.stable.runTop_from fuel' P ls s s' hw h'
+    exact (dead_iff_not_connected hw' hd'.1).1 hd'
+
+/-- once the cell has been erased, `disconnect()` through a stale value has no effect at all -/
+theorem disconnect_erased_noop (s : St) (cid : Nat) (h : getCell s cid = none) : disconnectCell s cid = s := by
+  simp [disconnectCell, h]
+
+/-! ### `disconnect()` -/
+
+/-- `slot_rep::disconnect()` is idempotent: a second `disconnect()` (through any copy of the handle)
+    changes nothing — in every well-formed, hence every reachable, state -/
+theorem disconnect_idempotent {s : St} (hw : WF s) (cid : Nat) :
+    disconnectCell (disconnectCell s cid) cid = disconnectCell s cid :=
+  disconnectCell_idem hw cid
+
+/-- `disconnect()` of one cell leaves every other cell of every list exactly as it was (slot, blocked
+    flag, link, order) and creates or removes no list -/
+theorem disconnect_exact (s : St) (cid j : Nat) :
+    (aget (disconnectCell s cid).impls j).map (fun im => im.cells.filter (fun c => decide (c.id ≠ cid))) =
+    (aget s.impls j).map (fun im => im.cells.filter (fun c => decide (c.id ≠ cid))) :=
+  disconnectCell_others s cid j
+
+/-- after `disconnect()` the handle value reports `connected() = false` -/
+theorem disconnect_disconnects {s : St} (hw : WF s) (cid : Nat) :
+    connConnected (disconnectCell s cid) (some cid) = false :=
+  disconnectCell_not_connected hw cid
+
+/-- operation level: `c.disconnect(); c.disconnect();` — the second call changes nothing, whether the
+    first one erased the cell (the handle was nulled) or only deferred the erase (inside an emission) -/
+theorem disc_twice {s s1 : St} {r1 : String} (hw : WF s) (k : Nat)
+    (h1 : stepSimple s (.disc k) = some (s1, r1)) : stepSimple s1 (.disc k) = some (s1, r1) := by
+  simp only [stepSimple] at h1 ⊢
+  cases hk : aget s.C k with
+  | none =>
+    simp only [hk, Option.some.injEq, Prod.mk.injEq] at h1
+    obtain ⟨rfl, rfl⟩ := h1
+    simp [hk]
+  | some p =>
+    simp only [hk, Option.some.injEq, Prod.mk.injEq] at h1
+    obtain ⟨rfl, rfl⟩ := h1
+    cases p with
+    | none => simp [hk]
+    | some cid =>
+      simp only []
+      rcases disconnectCell_C s cid with e | e
+      · rw [e, hk]
+        simp only [disconnectCell_idem hw cid]
+      · rw [e, aget_amap_nullF hk]
+        simp
+
+/-! ### examples -/
+
+/-- `sig.connect(f1); c1 = c0; c0.disconnect();` -/
+def exP : Prog :=
+  { bodies := [],
+    top := [⟨"newG 0 V", .newG 0 (some .V)⟩, ⟨"connfn 0 0 fn 1", .connfn 0 0 (.fn 1) false⟩,
+            ⟨"cpC 1 0", .cpC 1 0⟩, ⟨"disc 0", .disc 0⟩] }
+
+/-- the program runs, the copy `c1` was nulled by the disconnect through `c0`, nothing dangles -/
+example : ∃ s, runTop 3 exP {} exP.top = some s ∧ aget s.C 1 = some none ∧ NoDangling s := by
+  have h : ∃ s, runTop 3 exP {} exP.top = some s ∧ aget s.C 1 = some none := by
+    simp [exP, runTop, execLine, execOp, stepSimple, aget, aset, St.fresh, mkFun, specTaint, ensureImpl,
+      insertCell, setConn, setImpl, St.log, collect, collectN, disconnectCell, getCell, findCellImpl, updCell,
+      notifyParent, eraseCell, nullConns, amap, SlotB.disconnectRep]
+  obtain ⟨s, hs, hc⟩ := h
+  exact ⟨s, hs, hc, conn_never_dangles 3 exP s hs⟩
+
+/-- on the example state `Sigc.Inv.exS` (one signal, one connected valid cell, two connection copies):
+    `connected()` is true; after `disconnect()` it is false and stays false -/
+example : connConnected exS (some 4) = true := by
+  simp [connConnected, getCell, findCellImpl, exS, aget, SlotB.empty]
+
+example : connConnected (disconnectCell exS 4) (some 4) = false := disconnect_disconnects exS_wf 4
+
+example : disconnectCell (disconnectCell exS 4) 4 = disconnectCell exS 4 := disconnect_idempotent exS_wf 4
+
+example (fuel : Nat) (P : Prog) (op : Op) (r : St × Except Unit String)
+    (h : execOp fuel P (disconnectCell exS 4) op = some r) : connConnected r.1 (some 4) = false :=
+  stays_false_op fuel P _ op r 4 (WF.prims.disconnectCell 4 exS_wf)
+    (by have := (disconnectCell_dead exS_wf (cid := 4) (i := 3)
+          (c := { id := 4, slot := { rep := some { call := true, fn := some (.leaf 1 []) } }, linked := true })
+          (by simp [getCell, findCellImpl, exS, aget])).1
+        exact this)
+    (disconnect_disconnects exS_wf 4) h
 
 end Sigc.C04
